@@ -18,12 +18,16 @@ TECHNIQUE = ("transport-seam crash-point and single-fault enumeration of every "
 RULE = ("enumerated: pre-state {free, live other, dead other, empty info, "
         "unparsable info, missing lock directory} x operation {attempt_lock, "
         "wait_lock, attempt+unlock, unlock, peek+force_break(_corrupt), "
-        "break_lock} (x locks.steal_dead for a dead holder) x every crash point "
+        "break_lock} (x locks.steal_dead for a dead holder) x {local POSIX "
+        "rename, strict rename that refuses an existing destination as memory "
+        "/ sftp / smart transports do} x every crash point "
         "(before / after each mutating transport operation, and 4 truncation "
         "lengths of the non-atomic info write) and x every single injected "
         "error (6 TransportError/PathError classes) at every transport "
-        "operation including reads; thorough adds all double faults and "
-        "fault-then-crash pairs; generated: multi-operation programs of the "
+        "operation including reads, x every error at a mutating operation "
+        "followed by a crash at every later operation of the error path "
+        "(2 error classes quick, 6 thorough); thorough adds all double "
+        "faults; generated: multi-operation programs of the "
         "subject process interleaved with steps of another live process, with "
         "1-2 injected crashes/errors. Non-trivial: the crash or error fired "
         "with at least one transport operation executed before it and the "
@@ -49,7 +53,7 @@ LEVEL_NOTE = ("Trusts the seam's crash model (operation atomicity of the local "
               "error reported by the transport means no effect; errors reported "
               "after a performed operation are not modelled.")
 REGISTERED = True
-NONTRIVIAL_FLOOR = {"quick": 500, "thorough": 3000}
+NONTRIVIAL_FLOOR = {"quick": 1500, "thorough": 10000}
 
 PRES = ("free", "live", "dead", "empty", "corrupt", "missing")
 OPS = ("attempt", "wait", "lock_unlock", "unlock", "break", "break_ui")
@@ -75,12 +79,18 @@ class World:
     """One lock directory, the subject process' LockDir `l` on the seam
     transport and helpers to act as other processes on the plain transport."""
 
-    def __init__(self, root, pre, steal, own_first):
+    def __init__(self, root, pre, steal, own_first, strict=False):
         from breezy import lockdir, transport as _t
         self.root = root
+        self.strict = strict
         self.host, self.user = ls.our_identity()
-        self.t = ft.get_transport(root)
-        self.plain = _t.get_transport(root)
+        # strict: renaming onto an existing directory fails (memory, sftp,
+        # smart ... transports); otherwise local POSIX semantics.  Other
+        # processes see the same semantics (seam off = not counted/faulted).
+        self.t = ls.strict_transport(root) if strict else \
+            ft.get_transport(root)
+        self.plain = ls.strict_transport(root) if strict else \
+            _t.get_transport(root)
         self.lockdir = lockdir
         self.l = self.mk(self.t, steal)
         self.steal = steal
@@ -257,7 +267,7 @@ def recover(root, how, ctx, w):
         n = ls.parse_nonce(held)
         check(n is not None and n in w.written,
               "C27/held-with-unreadable-holder-info", [ctx, ls_b(held)])
-    t = _t.get_transport(root)
+    t = ls.strict_transport(root) if w.strict else _t.get_transport(root)
     f = lockdir.LockDir(t, "lock")
     state = "free"
     try:
@@ -322,7 +332,8 @@ def execute(case, root, record_only=False):
     early Outcome or None)."""
     steps = case["steps"]
     own_first = bool(case.get("own_first"))
-    w = World(root, case["pre"], bool(case.get("steal")), own_first)
+    w = World(root, case["pre"], bool(case.get("steal")), own_first,
+              bool(case.get("strict")))
     c = ls.PlanController(
         plan={} if record_only else build_plan(case),
         count_reads=bool(case.get("reads")))
@@ -403,8 +414,10 @@ def base_cases():
         for op in OPS:
             for steal in ((False, True) if pre == "dead" and op in (
                     "attempt", "wait", "lock_unlock") else (False,)):
-                yield {"pre": pre, "op": op, "steal": steal,
-                       "steps": op_steps(op), "own_first": op == "unlock"}
+                for strict in (False, True):
+                    yield {"pre": pre, "op": op, "steal": steal,
+                           "strict": strict, "steps": op_steps(op),
+                           "own_first": op == "unlock"}
 
 
 def record(base, reads):
@@ -442,6 +455,26 @@ def enum_fault(tier):
                 yield dict(base, reads=True, n=n, plan=[["fault", idx, ex]])
 
 
+FIRST_FAULTS = {"quick": ("PermissionDenied", "ResourceBusy"),
+                "thorough": EXCS}
+
+
+def enum_fault_then_crash(tier):
+    """An error at a mutating operation sends the code down its error
+    handling / fallback path; the process then dies at every later mutating
+    operation of that path (before / after it).  Error paths that do their
+    own multi-step clean-up are only reachable like this."""
+    for base in base_cases():
+        log = record(base, False)
+        n = len(log)
+        for i in range(n):
+            for ex in FIRST_FAULTS[tier]:
+                for j in range(i + 1, n + 4):
+                    for when in ("before", "after"):
+                        yield dict(base, reads=False, plan=[
+                            ["fault", i, ex], ["crash", j, when, None]])
+
+
 def enum_double(tier):
     """Thorough: every pair of errors, and every error followed by a crash.
     The second index ranges over the operations of the *faulted* run, which
@@ -450,14 +483,11 @@ def enum_double(tier):
         log = record(base, True)
         n = len(log)
         for i in range(n):
-            for ex in ("TransportError", "NoSuchFile", "FileExists"):
+            for ex in EXCS:
                 for j in range(i + 1, n + 8):
                     for ex2 in ("TransportError", "NoSuchFile"):
                         yield dict(base, reads=True, plan=[
                             ["fault", i, ex], ["fault", j, ex2]])
-                    for when in ("before", "after"):
-                        yield dict(base, reads=True, plan=[
-                            ["fault", i, ex], ["crash", j, when, None]])
 
 
 # ---------------------------------------------------------------- generated
@@ -487,7 +517,8 @@ def gen_program(draw):
         else:
             plan.append(["fault", i, draw(st.sampled_from(EXCS))])
     return {"pre": pre, "steal": draw(st.booleans()), "steps": steps,
-            "own_first": own_first, "reads": reads, "plan": plan}
+            "own_first": own_first, "reads": reads, "plan": plan,
+            "strict": draw(st.booleans())}
 
 
 def kinds(tier):
@@ -496,6 +527,8 @@ def kinds(tier):
              hash_cases=False),
         Kind("single-faults", run, enumerate=enum_fault, exhaustive=True,
              hash_cases=False),
+        Kind("fault-then-crash", run, enumerate=enum_fault_then_crash,
+             exhaustive=True, hash_cases=False),
         Kind("programs", run, strategy=gen_program(),
              examples={"quick": 1500, "thorough": 40000}),
     ]
